@@ -1,2 +1,916 @@
+import NeatviVerif.Model.ExCmd
+import NeatviVerif.Lemmas.ExFrame
+import NeatviVerif.Lemmas.C12Exec
+/-!
+# C14: `:s` — the expansion of the replacement, the per-line scan, and the frame of `ec_substitute`
+-/
 namespace Neatvi.Props.C14
+open Neatvi Neatvi.Lbuf Neatvi.Ex Neatvi.Rset Neatvi.Lemmas.ExFrame Neatvi.Lemmas.Hist Neatvi.Props.C01
+
+/-! ## 1. the expansion of the replacement text -/
+
+/-- start and end offset of group `d` in the offsets `rstr_find` wrote (`-1` when absent) -/
+def grpSo (offs : List Int) (d : Nat) : Int := offs.getD (d * 2) (-1)
+def grpEo (offs : List Int) (d : Nat) : Int := offs.getD (d * 2 + 1) (-1)
+
+/-- the bytes `ln[so, eo)` of group `d` (empty when `so = eo`, in particular for an unset group) -/
+def grpText (ln : Bytes) (offs : List Int) (d : Nat) : Bytes :=
+  (ln.drop (grpSo offs d).toNat).take (grpEo offs d - grpSo offs d).toNat
+
+/-- group `d` is usable: empty, or a proper slice of the line -/
+def GrpOk (ln : Bytes) (offs : List Int) (d : Nat) : Prop :=
+  grpSo offs d = grpEo offs d ∨ (0 ≤ grpSo offs d ∧ grpSo offs d ≤ grpEo offs d ∧ grpEo offs d ≤ ln.length)
+
+instance (ln : Bytes) (offs : List Int) (d : Nat) : Decidable (GrpOk ln offs d) := by unfold GrpOk; infer_instance
+
+def isDigit (d : Nat) : Prop := 48 ≤ d ∧ d ≤ 57
+instance (d : Nat) : Decidable (isDigit d) := by unfold isDigit; infer_instance
+
+/-- reference expansion: `\\d` ↦ group `d`, `\\c` ↦ `c`, a trailing lone backslash and every other byte ↦ itself -/
+def expandRef : Bytes → Bytes → List Int → Bytes
+  | [], _, _ => []
+  | c :: r, ln, offs =>
+    if c = 92 then
+      match r with
+      | [] => [92]
+      | d :: r' => if isDigit d then grpText ln offs (d - 48) ++ expandRef r' ln offs else d :: expandRef r' ln offs
+    else c :: expandRef r ln offs
+
+/-- the groups the replacement text refers to (digits in escape position) -/
+def refs : Bytes → List Nat
+  | [] => []
+  | c :: r =>
+    if c = 92 then
+      match r with
+      | [] => []
+      | d :: r' => if isDigit d then (d - 48) :: refs r' else refs r'
+    else refs r
+
+theorem expandRef_nil (ln : Bytes) (offs : List Int) : expandRef [] ln offs = [] := rfl
+theorem expandRef_lone (ln : Bytes) (offs : List Int) : expandRef [92] ln offs = [92] := by simp [expandRef]
+theorem expandRef_group (d : Nat) (r ln : Bytes) (offs : List Int) (hd : isDigit d) :
+    expandRef (92 :: d :: r) ln offs = grpText ln offs (d - 48) ++ expandRef r ln offs := by simp [expandRef, hd]
+theorem expandRef_esc (d : Nat) (r ln : Bytes) (offs : List Int) (hd : ¬ isDigit d) :
+    expandRef (92 :: d :: r) ln offs = d :: expandRef r ln offs := by simp [expandRef, hd]
+theorem expandRef_other (c : Nat) (r ln : Bytes) (offs : List Int) (hc : c ≠ 92) :
+    expandRef (c :: r) ln offs = c :: expandRef r ln offs := by cases r <;> simp [expandRef, hc]
+
+theorem refs_group (d : Nat) (r : Bytes) (hd : isDigit d) : refs (92 :: d :: r) = (d - 48) :: refs r := by simp [refs, hd]
+theorem refs_esc (d : Nat) (r : Bytes) (hd : ¬ isDigit d) : refs (92 :: d :: r) = refs r := by simp [refs, hd]
+theorem refs_other (c : Nat) (r : Bytes) (hc : c ≠ 92) : refs (c :: r) = refs r := by cases r <;> simp [refs, hc]
+
+/-- the model's verdict on one group reference -/
+theorem grp_cases (ln : Bytes) (offs : List Int) (d : Nat) :
+    (GrpOk ln offs d ↔ ¬ (grpEo offs d - grpSo offs d < 0) ∧
+      ((grpEo offs d - grpSo offs d == 0) = true ∨ ¬ (decide (grpSo offs d < 0) || decide (grpEo offs d > ↑ln.length)) = true)) := by
+  unfold GrpOk
+  simp only [beq_iff_eq, Bool.or_eq_true, decide_eq_true_eq]
+  omega
+
+theorem go_spec (ln : Bytes) (offs : List Int) : ∀ (f : Nat) (rep acc : Bytes), rep.length < f →
+    (∀ d ∈ refs rep, GrpOk ln offs d) →
+    substExpand.go ln offs f rep acc = some (acc ++ expandRef rep ln offs) := by
+  intro f
+  induction f with
+  | zero => intro rep acc h; omega
+  | succ f ih =>
+    intro rep acc hf hok
+    cases rep with
+    | nil => rw [substExpand.go]; simp [expandRef]
+    | cons c r =>
+      rw [substExpand.go]
+      by_cases hc : c = 92
+      · subst hc
+        cases r with
+        | nil =>
+          simp only [List.isEmpty_nil, Bool.not_true, Bool.and_false, Bool.false_eq_true, if_false]
+          rw [ih [] _ (by simp at hf ⊢; omega) (by simp [refs]), expandRef_lone, expandRef_nil]
+          simp
+        | cons d r' =>
+          have hl : r'.length < f := by simp at hf; omega
+          have e1 : ((92 : Nat) == 92 && !(d :: r').isEmpty) = true := rfl
+          rw [if_pos e1]
+          show (if (decide (48 ≤ d) && decide (d ≤ 57)) = true then
+              if grpEo offs (d - 48) - grpSo offs (d - 48) < 0 then none
+              else if (grpEo offs (d - 48) - grpSo offs (d - 48) == 0) = true then substExpand.go ln offs f r' acc
+              else if (decide (grpSo offs (d - 48) < 0) || decide (grpEo offs (d - 48) > ↑ln.length)) = true then none
+              else substExpand.go ln offs f r' (acc ++ grpText ln offs (d - 48))
+            else substExpand.go ln offs f r' (acc ++ [d])) = _
+          by_cases hd : isDigit d
+          · have hd' : (decide (48 ≤ d) && decide (d ≤ 57)) = true := by
+              simp only [Bool.and_eq_true, decide_eq_true_eq]; exact hd
+            rw [if_pos hd', expandRef_group _ _ _ _ hd]
+            have hg : GrpOk ln offs (d - 48) := hok _ (by simp [refs_group _ _ hd])
+            have hr : ∀ d' ∈ refs r', GrpOk ln offs d' := fun d' h' => hok d' (by simp [refs_group _ _ hd, h'])
+            obtain ⟨g1, g2⟩ := (grp_cases ln offs (d - 48)).1 hg
+            rw [if_neg g1]
+            by_cases hz : (grpEo offs (d - 48) - grpSo offs (d - 48) == 0) = true
+            · rw [if_pos hz, ih _ _ hl hr]
+              have : grpText ln offs (d - 48) = [] := by
+                unfold grpText; rw [beq_iff_eq] at hz; rw [hz]; simp
+              rw [this]; simp
+            · rw [if_neg hz]
+              rcases g2 with g2 | g2
+              · exact absurd g2 hz
+              · rw [if_neg g2, ih _ _ hl hr, List.append_assoc]
+          · have hd' : ¬ (decide (48 ≤ d) && decide (d ≤ 57)) = true := by
+              simp only [Bool.and_eq_true, decide_eq_true_eq]; exact hd
+            rw [if_neg hd', expandRef_esc _ _ _ _ hd]
+            have hr : ∀ d' ∈ refs r', GrpOk ln offs d' := fun d' h' => hok d' (by simp [refs_esc _ _ hd, h'])
+            rw [ih _ _ hl hr]
+            simp
+      · have : ¬ ((c == 92) && !r.isEmpty) = true := by simp [hc]
+        rw [if_neg this, expandRef_other _ _ _ _ hc]
+        have hr : ∀ d' ∈ refs r, GrpOk ln offs d' := fun d' h' => hok d' (by simp [refs_other _ _ hc, h'])
+        rw [ih _ _ (by simp at hf; omega) hr]
+        simp
+
+/-- **expand_spec**: when every referenced group is empty or a proper slice of the line, the model's
+    expansion succeeds and is the reference expansion -/
+theorem expand_spec (rep ln : Bytes) (offs : List Int) (h : ∀ d ∈ refs rep, GrpOk ln offs d) :
+    substExpand rep ln offs = some (expandRef rep ln offs) := by
+  unfold substExpand
+  rw [go_spec ln offs _ rep [] (by omega) h]
+  simp
+
+theorem go_none (ln : Bytes) (offs : List Int) : ∀ (f : Nat) (rep acc : Bytes), rep.length < f →
+    (∃ d ∈ refs rep, ¬ GrpOk ln offs d) → substExpand.go ln offs f rep acc = none := by
+  intro f
+  induction f with
+  | zero => intro rep acc h; omega
+  | succ f ih =>
+    intro rep acc hf hbad
+    cases rep with
+    | nil => simp [refs] at hbad
+    | cons c r =>
+      rw [substExpand.go]
+      by_cases hc : c = 92
+      · subst hc
+        cases r with
+        | nil => simp [refs] at hbad
+        | cons d r' =>
+          have hl : r'.length < f := by simp at hf; omega
+          have e1 : ((92 : Nat) == 92 && !(d :: r').isEmpty) = true := rfl
+          rw [if_pos e1]
+          show (if (decide (48 ≤ d) && decide (d ≤ 57)) = true then
+              if grpEo offs (d - 48) - grpSo offs (d - 48) < 0 then none
+              else if (grpEo offs (d - 48) - grpSo offs (d - 48) == 0) = true then substExpand.go ln offs f r' acc
+              else if (decide (grpSo offs (d - 48) < 0) || decide (grpEo offs (d - 48) > ↑ln.length)) = true then none
+              else substExpand.go ln offs f r' (acc ++ grpText ln offs (d - 48))
+            else substExpand.go ln offs f r' (acc ++ [d])) = _
+          by_cases hd : isDigit d
+          · have hd' : (decide (48 ≤ d) && decide (d ≤ 57)) = true := by
+              simp only [Bool.and_eq_true, decide_eq_true_eq]; exact hd
+            rw [if_pos hd']
+            rw [refs_group _ _ hd] at hbad
+            by_cases hg : GrpOk ln offs (d - 48)
+            · have hr : ∃ d' ∈ refs r', ¬ GrpOk ln offs d' := by
+                obtain ⟨d', h1, h2⟩ := hbad
+                simp only [List.mem_cons] at h1
+                rcases h1 with rfl | h1
+                · exact absurd hg h2
+                · exact ⟨d', h1, h2⟩
+              split
+              · rfl
+              · split
+                · exact ih _ _ hl hr
+                · split
+                  · rfl
+                  · exact ih _ _ hl hr
+            · have := (not_congr (grp_cases ln offs (d - 48))).1 hg
+              split
+              · rfl
+              · rename_i g1
+                split
+                · rename_i g2; exact absurd ⟨g1, Or.inl g2⟩ this
+                · split
+                  · rfl
+                  · rename_i g3; exact absurd ⟨g1, Or.inr g3⟩ this
+          · have hd' : ¬ (decide (48 ≤ d) && decide (d ≤ 57)) = true := by
+              simp only [Bool.and_eq_true, decide_eq_true_eq]; exact hd
+            rw [if_neg hd']
+            rw [refs_esc _ _ hd] at hbad
+            exact ih _ _ hl hbad
+      · have : ¬ ((c == 92) && !r.isEmpty) = true := by simp [hc]
+        rw [if_neg this]
+        rw [refs_other _ _ hc] at hbad
+        exact ih _ _ (by simp at hf; omega) hbad
+
+/-- the model returns `none` (a garbage length handed to `memcpy`) exactly when some referenced group is
+    neither empty nor a proper slice of the line -/
+theorem expand_none_iff (rep ln : Bytes) (offs : List Int) :
+    substExpand rep ln offs = none ↔ ∃ d ∈ refs rep, ¬ GrpOk ln offs d := by
+  constructor
+  · intro h
+    apply Classical.byContradiction
+    intro hn
+    have : ∀ d ∈ refs rep, GrpOk ln offs d := by
+      intro d hd
+      apply Classical.byContradiction
+      intro hb
+      exact hn ⟨d, hd, hb⟩
+    rw [expand_spec rep ln offs this] at h
+    cases h
+  · intro h
+    unfold substExpand
+    exact go_none ln offs _ rep [] (by omega) h
+
+/-- groups as `rstr_find` leaves them for a literal pattern (all unset but group 0) are fine -/
+example : substExpand [120, 92, 48, 92, 49, 92, 110, 92] [97, 98, 99, 10] [1, 2, -1, -1] = some [120, 98, 110, 92] := by decide
+example : expandRef [120, 92, 48, 92, 49, 92, 110, 92] [97, 98, 99, 10] [1, 2, -1, -1] = [120, 98, 110, 92] := by decide
+/-- a garbage group (end before start) is a trap -/
+example : substExpand [92, 49] [97, 10] [0, 1, 1, 0] = none := by decide
+
+/-! ## 2./3. one line: no match, and the first match only -/
+
+/-- **subst_no_match**: when the first search reports "not found" the line is left alone
+    (`some none`: `ec_substitute` does not call `lbuf_edit`, so no history entry is logged for it) -/
+theorem subst_no_match (re : RStr) (rep : Bytes) (g : Bool) (line : Bytes) (res : Int) (offs : List Int) (c : Nat)
+    (h : rstrFind re line 16 0 ND NG = some (res, offs, c)) (hres : res < 0) :
+    substLine re rep g line = some none := by
+  unfold substLine
+  rw [substLine.go]
+  simp only [if_true, h, hres]
+
+/-- **subst_first_only**: without `g`, a first match `[so, eo)` with `eo > 0` is replaced by the expansion and
+    every other byte of the line is kept -/
+theorem subst_first_only (re : RStr) (rep line : Bytes) (res : Int) (offs : List Int) (c : Nat) (x : Bytes)
+    (h : rstrFind re line 16 0 ND NG = some (res, offs, c)) (hres : 0 ≤ res)
+    (heo : 0 < offs.getD 1 0) (hx : substExpand rep line offs = some x) :
+    substLine re rep false line =
+      some (some (line.take (offs.getD 0 0).toNat ++ x ++ line.drop (offs.getD 1 0).toNat)) := by
+  unfold substLine
+  rw [substLine.go]
+  have h1 : ¬ res < 0 := by omega
+  simp only [↓reduceIte, h, h1, hx]
+  generalize offs.getD 1 0 = eo at *
+  generalize (offs.getD 0 0).toNat = so at *
+  have h2 : ¬ eo ≤ 0 := by omega
+  simp [h2]
+
+/-- the same with the reference expansion, when the groups are usable -/
+theorem subst_first_only_ref (re : RStr) (rep line : Bytes) (res : Int) (offs : List Int) (c : Nat)
+    (h : rstrFind re line 16 0 ND NG = some (res, offs, c)) (hres : 0 ≤ res)
+    (heo : 0 < offs.getD 1 0) (hok : ∀ d ∈ refs rep, GrpOk line offs d) :
+    substLine re rep false line =
+      some (some (line.take (offs.getD 0 0).toNat ++ expandRef rep line offs ++ line.drop (offs.getD 1 0).toNat)) :=
+  subst_first_only re rep line res offs c _ h hres heo (expand_spec rep line offs hok)
+
+/-- an empty first match at the very start (`eo ≤ 0`): the expansion is inserted and, when the first
+    character is complete, the whole line follows unchanged -/
+theorem subst_first_only_empty (re : RStr) (rep line : Bytes) (res : Int) (offs : List Int) (c : Nat) (x : Bytes)
+    (h : rstrFind re line 16 0 ND NG = some (res, offs, c)) (hres : 0 ≤ res)
+    (heo : offs.getD 1 0 ≤ 0) (hx : substExpand rep line offs = some x)
+    (hch : Uc.ucLen (line.headD 0) ≤ line.length) :
+    substLine re rep false line = some (some (line.take (offs.getD 0 0).toNat ++ x ++ line)) := by
+  unfold substLine
+  rw [substLine.go]
+  have h1 : ¬ res < 0 := by omega
+  simp only [↓reduceIte, h, h1, hx]
+  generalize offs.getD 1 0 = eo at *
+  generalize (offs.getD 0 0).toNat = so at *
+  have h3 : eo.toNat = 0 := by omega
+  simp only [heo, h3, List.drop_zero, decide_true, Bool.true_and, gt_iff_lt, decide_eq_true_eq, ↓reduceIte,
+    Bool.not_false, Bool.or_true, Option.getD_none, List.nil_append, List.append_assoc]
+  generalize Uc.ucLen (line.headD 0) = l at *
+  have h4 : ¬ line.length < l := by omega
+  simp only [h4, ↓reduceIte, List.append_assoc, List.take_append_drop]
+
+/-! ## 4. the scan over one line against an abstract matcher -/
+
+/-- an abstract matcher on (rest of the line, "not at the beginning of the line"):
+    `none` = trap, `some none` = not found, `some (some (so, eo, offs))` = found -/
+abbrev Matcher := Bytes → Bool → Option (Option (Nat × Nat × List Int))
+
+/-- a matcher that never traps, in the plain form -/
+def Matcher.ofTotal (find : Bytes → Bool → Option (Nat × Nat × List Int)) : Matcher := fun s nb => some (find s nb)
+
+/-- `rstr_find` as `ec_substitute` calls it, seen as a matcher -/
+def rsFind (re : RStr) : Matcher := fun s notbol =>
+  match rstrFind re s 16 (if notbol then RE_NOTBOL else 0) ND NG with
+  | none => none
+  | some (res, offs, _) =>
+    if res < 0 then some none else some (some ((offs.getD 0 0).toNat, (offs.getD 1 0).toNat, offs))
+
+/-- the expansion or a trap, stated with the reference expansion -/
+def expandOpt (rep ln : Bytes) (offs : List Int) : Option Bytes :=
+  if ∀ d ∈ refs rep, GrpOk ln offs d then some (expandRef rep ln offs) else none
+
+theorem substExpand_eq (rep ln : Bytes) (offs : List Int) : substExpand rep ln offs = expandOpt rep ln offs := by
+  unfold expandOpt
+  split
+  · rename_i h; exact expand_spec rep ln offs h
+  · rename_i h
+    rw [expand_none_iff]
+    apply Classical.byContradiction
+    intro hn
+    apply h
+    intro d hd
+    apply Classical.byContradiction
+    intro hb
+    exact hn ⟨d, hd, hb⟩
+
+/-- one step of the scan: what is copied, what is dropped, what is inserted -/
+structure Piece where
+  /-- the bytes before the match: copied -/
+  skip : Bytes
+  /-- the matched bytes: dropped -/
+  matched : Bytes
+  /-- the expansion of the replacement: inserted -/
+  sub : Bytes
+  /-- the character copied after an empty match at the start of the rest -/
+  ch : Bytes
+deriving Repr, DecidableEq
+
+/-- the reference scan: match, cut the piece, go on with the rest (from then on "not at the beginning") -/
+def scan (find : Matcher) (rep : Bytes) (g : Bool) (ln : Bytes) (notbol : Bool) : Option (List Piece × Bytes) :=
+  match find ln notbol with
+  | none => none                                -- the matcher traps
+  | some none => some ([], ln)                  -- no further match: the rest is kept
+  | some (some (so, eo, offs)) =>
+    match expandOpt rep ln offs with
+    | none => none                              -- garbage group offsets
+    | some x =>
+      let rest := ln.drop eo
+      -- after an empty match at the start one character is copied, so that the scan advances
+      let l := if eo = 0 then Uc.ucLen (rest.headD 0) else 0
+      if l > rest.length then none else         -- a truncated character
+      let p : Piece := ⟨ln.take so, (ln.take eo).drop so, x, rest.take l⟩
+      let rest' := rest.drop l
+      if rest' = [] ∨ rest'.headD 0 = 10 ∨ g = false then some ([p], rest')
+      else if _h : rest'.length < ln.length then
+        match scan find rep g rest' true with
+        | none => none
+        | some (ps, r) => some (p :: ps, r)
+      else none                                 -- no progress (only with a NUL byte in the line)
+termination_by ln.length
+decreasing_by exact _h
+
+/-- the text the pieces were cut from, and the text they produce -/
+def srcOf (ps : List Piece) (rest : Bytes) : Bytes := (ps.flatMap fun p => p.skip ++ p.matched ++ p.ch) ++ rest
+def outOf (ps : List Piece) (rest : Bytes) : Bytes := (ps.flatMap fun p => p.skip ++ p.sub ++ p.ch) ++ rest
+
+/-- reference for `substLine` -/
+def substRef (find : Matcher) (rep : Bytes) (g : Bool) (line : Bytes) : Option (Option Bytes) :=
+  match scan find rep g line false with
+  | none => none
+  | some ([], _) => some none
+  | some (ps, rest) => some (some (outOf ps rest))
+
+/-- how the accumulator of the model's loop continues -/
+def comb (r : Option Bytes) (ps : List Piece) : Option Bytes :=
+  match ps with
+  | [] => r
+  | _ => some (r.getD [] ++ ps.flatMap fun p => p.skip ++ p.sub ++ p.ch)
+
+theorem comb_cons (r : Option Bytes) (p : Piece) (ps : List Piece) :
+    comb r (p :: ps) = comb (some (r.getD [] ++ p.skip ++ p.sub ++ p.ch)) ps := by
+  cases ps <;> simp [comb]
+
+theorem go_eq_scan (re : RStr) (rep : Bytes) (g : Bool) : ∀ (n : Nat) (ln : Bytes), ln.length < n →
+    ∀ (f : Nat) (r : Option Bytes) (notbol : Bool), (∀ b ∈ ln, b ≠ 0) → ln.length < f →
+    substLine.go re rep g f ln r (!notbol) =
+      (scan (rsFind re) rep g ln notbol).map (fun x => (comb r x.1, x.2)) := by
+  intro n
+  induction n with
+  | zero => intro ln hn; omega
+  | succ n ih =>
+    intro ln hn f r notbol h0 hf
+    cases f with
+    | zero => omega
+    | succ f =>
+      -- the common tail: stop, or go on with the rest
+      have key : ∀ (p : Piece) (rest' : Bytes), (rest' ≠ [] → rest'.length < ln.length) → (∀ b ∈ rest', b ≠ 0) →
+          (if (rest'.isEmpty || rest'.headD 0 == 10 || !g) = true then
+              some (some (r.getD [] ++ p.skip ++ p.sub ++ p.ch), rest')
+            else substLine.go re rep g f rest' (some (r.getD [] ++ p.skip ++ p.sub ++ p.ch)) false) =
+          Option.map (fun x => (comb r x.1, x.2))
+            (if rest' = [] ∨ rest'.headD 0 = 10 ∨ g = false then some ([p], rest')
+             else if _h : rest'.length < ln.length then
+               match scan (rsFind re) rep g rest' true with
+               | none => none
+               | some (ps, r) => some (p :: ps, r)
+             else none) := by
+        intro p rest' hlt h0'
+        by_cases hstop : rest' = [] ∨ rest'.headD 0 = 10 ∨ g = false
+        · have : (rest'.isEmpty || rest'.headD 0 == 10 || !g) = true := by
+            simp only [Bool.or_eq_true, List.isEmpty_iff, beq_iff_eq, Bool.not_eq_true']
+            rcases hstop with h | h | h
+            · exact Or.inl (Or.inl h)
+            · exact Or.inl (Or.inr h)
+            · exact Or.inr h
+          rw [if_pos this, if_pos hstop]
+          simp [comb]
+        · have : ¬ (rest'.isEmpty || rest'.headD 0 == 10 || !g) = true := by
+            simp only [Bool.or_eq_true, List.isEmpty_iff, beq_iff_eq, Bool.not_eq_true']
+            intro h
+            apply hstop
+            rcases h with (h | h) | h
+            · exact Or.inl h
+            · exact Or.inr (Or.inl h)
+            · exact Or.inr (Or.inr h)
+          have hne : rest' ≠ [] := fun h => hstop (Or.inl h)
+          have hl := hlt hne
+          rw [if_neg this, if_neg hstop, dif_pos hl]
+          have := ih rest' (by omega) f (some (r.getD [] ++ p.skip ++ p.sub ++ p.ch)) true h0' (by omega)
+          simp only [Bool.not_true] at this
+          rw [this]
+          cases scan (rsFind re) rep g rest' true with
+          | none => rfl
+          | some t =>
+            obtain ⟨ps, r'⟩ := t
+            simp only [Option.map_some, comb_cons]
+      have e : (if (!notbol) = true then 0 else RE_NOTBOL) = (if notbol = true then RE_NOTBOL else 0) := by
+        cases notbol <;> rfl
+      rw [substLine.go, scan, e]
+      cases hfnd : rstrFind re ln 16 (if notbol = true then RE_NOTBOL else 0) ND NG with
+      | none =>
+        have hrs : rsFind re ln notbol = none := by simp only [rsFind, hfnd]
+        rw [hrs]; rfl
+      | some t =>
+        obtain ⟨res, offs, c⟩ := t
+        simp only []
+        by_cases hres : res < 0
+        · have hrs : rsFind re ln notbol = some none := by simp only [rsFind, hfnd, hres, if_true]
+          rw [hrs]
+          simp [hres, comb]
+        · have hrs : rsFind re ln notbol = some (some ((offs.getD 0 0).toNat, (offs.getD 1 0).toNat, offs)) := by
+            simp only [rsFind, hfnd, hres, if_false]
+          rw [hrs]
+          simp only [hres, if_false, substExpand_eq]
+          cases hx : expandOpt rep ln offs with
+          | none => rfl
+          | some x =>
+            simp only []
+            generalize (offs.getD 0 0).toNat = so
+            generalize heo : offs.getD 1 0 = eo
+            by_cases he : eo ≤ 0
+            · have he0 : eo.toNat = 0 := by omega
+              simp only [he, he0, List.drop_zero, decide_true, Bool.true_and, ↓reduceIte]
+              by_cases hl : Uc.ucLen (ln.headD 0) > ln.length
+              · rw [if_pos (decide_eq_true hl), if_pos hl]; rfl
+              · rw [if_neg (by simpa using hl), if_neg hl]
+                have := key ⟨ln.take so, (ln.take 0).drop so, x, ln.take (Uc.ucLen (ln.headD 0))⟩
+                  (ln.drop (Uc.ucLen (ln.headD 0)))
+                  (by
+                    intro hne
+                    cases ln with
+                    | nil => simp at hne
+                    | cons a t =>
+                      have ha : a ≠ 0 := h0 a (by simp)
+                      have := C12.ucLen_pos (c := a) (by omega)
+                      simp only [List.headD_cons, List.length_drop, List.length_cons]
+                      omega)
+                  (fun b hb => h0 b (List.mem_of_mem_drop hb))
+                simp only [List.append_assoc] at this ⊢
+                exact this
+            · have he0 : eo.toNat ≠ 0 := by omega
+              simp only [he, he0, decide_false, Bool.false_and, Bool.false_eq_true, ↓reduceIte, gt_iff_lt,
+                Nat.not_lt_zero, List.take_zero, List.drop_zero]
+              have := key ⟨ln.take so, (ln.take eo.toNat).drop so, x, []⟩ (ln.drop eo.toNat)
+                  (by
+                    intro hne
+                    have : eo.toNat < ln.length := by
+                      apply Classical.byContradiction
+                      intro hge
+                      exact hne (List.drop_eq_nil_of_le (by omega))
+                    simp only [List.length_drop]
+                    omega)
+                  (fun b hb => h0 b (List.mem_of_mem_drop hb))
+              simp only [List.append_assoc, List.append_nil] at this ⊢
+              exact this
+
+/-- **subst_scan_spec**: on a line without NUL bytes (every C string) the per-line loop of `ec_substitute`
+    is the reference scan against `rstr_find` -/
+theorem subst_scan_spec (re : RStr) (rep : Bytes) (g : Bool) (line : Bytes) (h0 : ∀ b ∈ line, b ≠ 0) :
+    substLine re rep g line = substRef (rsFind re) rep g line := by
+  unfold substLine substRef
+  have := go_eq_scan re rep g (line.length + 1) line (by omega) (line.length + 2) none false h0 (by omega)
+  simp only [Bool.not_false] at this
+  rw [this]
+  cases scan (rsFind re) rep g line false with
+  | none => rfl
+  | some t =>
+    obtain ⟨ps, rest⟩ := t
+    cases ps with
+    | nil => rfl
+    | cons p ps => simp [comb, outOf]
+
+/-- the same against a matcher given in the plain form (one that never traps) -/
+theorem subst_scan_spec_total (re : RStr) (rep : Bytes) (g : Bool) (line : Bytes) (h0 : ∀ b ∈ line, b ≠ 0)
+    (find : Bytes → Bool → Option (Nat × Nat × List Int)) (hf : ∀ s nb, rsFind re s nb = some (find s nb)) :
+    substLine re rep g line = substRef (Matcher.ofTotal find) rep g line := by
+  rw [subst_scan_spec re rep g line h0]
+  have : rsFind re = Matcher.ofTotal find := by
+    funext s nb; exact hf s nb
+  rw [this]
+
+/-! ### corollaries of the scan -/
+
+/-- a matcher whose matches are intervals -/
+def Matcher.Ordered (find : Matcher) : Prop := ∀ s nb so eo offs, find s nb = some (some (so, eo, offs)) → so ≤ eo
+
+theorem take_mid_drop (ln : Bytes) (so eo : Nat) (h : so ≤ eo) :
+    ln.take so ++ (ln.take eo).drop so ++ ln.drop eo = ln := by
+  have h1 : ln.take so = (ln.take eo).take so := by rw [List.take_take, Nat.min_eq_left h]
+  rw [h1, List.take_append_drop, List.take_append_drop]
+
+/-- inversion of a successful scan: either nothing was found, or a first piece was cut and the scan
+    stopped or went on with the rest -/
+theorem scan_cases {find : Matcher} {rep : Bytes} {g : Bool} {ln : Bytes} {nb : Bool} {ps : List Piece} {rest : Bytes}
+    (h : scan find rep g ln nb = some (ps, rest)) :
+    (find ln nb = some none ∧ ps = [] ∧ rest = ln) ∨
+    ∃ so eo offs x l ps', find ln nb = some (some (so, eo, offs)) ∧ expandOpt rep ln offs = some x ∧
+      l = (if eo = 0 then Uc.ucLen ((ln.drop eo).headD 0) else 0) ∧ l ≤ (ln.drop eo).length ∧
+      ps = ⟨ln.take so, (ln.take eo).drop so, x, (ln.drop eo).take l⟩ :: ps' ∧
+      ((ps' = [] ∧ rest = (ln.drop eo).drop l) ∨
+       (((ln.drop eo).drop l).length < ln.length ∧ scan find rep g ((ln.drop eo).drop l) true = some (ps', rest))) := by
+  rw [scan] at h
+  split at h
+  · cases h
+  · rename_i hf; cases h; exact Or.inl ⟨hf, rfl, rfl⟩
+  · rename_i so eo offs hf
+    right
+    split at h
+    · cases h
+    · rename_i x hx
+      simp only [] at h
+      generalize hl : (if eo = 0 then Uc.ucLen ((ln.drop eo).headD 0) else 0) = l at h
+      split at h
+      · cases h
+      · rename_i hle
+        split at h
+        · cases h
+          exact ⟨so, eo, offs, x, l, [], hf, hx, hl.symm, by omega, rfl, Or.inl ⟨rfl, rfl⟩⟩
+        · split at h
+          · rename_i hlt
+            split at h
+            · cases h
+            · rename_i ps' r' hs
+              cases h
+              exact ⟨so, eo, offs, x, l, ps', hf, hx, hl.symm, by omega, rfl, Or.inr ⟨hlt, hs⟩⟩
+          · cases h
+
+/-- the pieces partition the line: skipped bytes, matched bytes, copied character, ..., rest — in order -/
+theorem scan_src (find : Matcher) (hord : find.Ordered) (rep : Bytes) (g : Bool) : ∀ (n : Nat) (ln : Bytes), ln.length < n →
+    ∀ (nb : Bool) (ps : List Piece) (rest : Bytes), scan find rep g ln nb = some (ps, rest) → ln = srcOf ps rest := by
+  intro n
+  induction n with
+  | zero => intro ln hn; omega
+  | succ n ih =>
+    intro ln hn nb ps rest h
+    rcases scan_cases h with ⟨_, rfl, rfl⟩ | ⟨so, eo, offs, x, l, ps', hf, _, _, _, rfl, hrest⟩
+    · simp [srcOf]
+    · have hle := hord _ _ _ _ _ hf
+      have hpart : ln = ln.take so ++ (ln.take eo).drop so ++ (ln.drop eo).take l ++ (ln.drop eo).drop l := by
+        rw [List.append_assoc _ (List.take _ _), List.take_append_drop, take_mid_drop ln so eo hle]
+      rcases hrest with ⟨rfl, rfl⟩ | ⟨hlt, hs⟩
+      · simp only [srcOf, List.flatMap_cons, List.flatMap_nil, List.append_nil]
+        exact hpart
+      · have := ih _ (by omega) _ _ _ hs
+        simp only [srcOf, List.flatMap_cons, List.append_assoc] at this ⊢
+        rw [← this]
+        simp only [List.append_assoc] at hpart
+        exact hpart
+
+theorem scan_nonempty (find : Matcher) (rep : Bytes) (g : Bool) (ln : Bytes) (nb : Bool) (ps : List Piece) (rest : Bytes)
+    (h : scan find rep g ln nb = some (ps, rest)) : ps = [] ↔ find ln nb = some none := by
+  rcases scan_cases h with ⟨hf, rfl, rfl⟩ | ⟨so, eo, offs, x, l, ps', hf, _, _, _, rfl, _⟩
+  · simp [hf]
+  · simp [hf]
+
+/-- **output_pieces**: when a line is rewritten, it splits into pieces and a rest such that the old line is
+    `skip₁ matched₁ ch₁ … skipₖ matchedₖ chₖ rest` and the new one `skip₁ sub₁ ch₁ … skipₖ subₖ chₖ rest`:
+    every byte of the output is copied from the line, in order, or comes from an expansion; the matched
+    intervals do not overlap and advance -/
+theorem output_pieces (re : RStr) (hord : (rsFind re).Ordered) (rep : Bytes) (g : Bool) (line out : Bytes)
+    (h0 : ∀ b ∈ line, b ≠ 0) (h : substLine re rep g line = some (some out)) :
+    ∃ ps rest, ps ≠ [] ∧ scan (rsFind re) rep g line false = some (ps, rest) ∧
+      line = srcOf ps rest ∧ out = outOf ps rest := by
+  rw [subst_scan_spec re rep g line h0] at h
+  unfold substRef at h
+  split at h
+  · cases h
+  · cases h
+  · rename_i ps rest hne hs
+    cases h
+    refine ⟨ps, rest, ?_, hs, scan_src _ hord rep g _ line (Nat.lt_succ_self _) false ps rest hs, rfl⟩
+    intro hp; subst hp; exact hne rfl
+
+/-- absolute intervals `[a, b)` of the matched texts, for pieces that start at offset `base` -/
+def spans (base : Nat) : List Piece → List (Nat × Nat)
+  | [] => []
+  | p :: ps => (base + p.skip.length, base + p.skip.length + p.matched.length) ::
+      spans (base + p.skip.length + p.matched.length + p.ch.length) ps
+
+/-- each interval starts at or after `lo` and the next one at or after its end -/
+def Advancing (lo : Nat) : List (Nat × Nat) → Prop
+  | [] => True
+  | (a, b) :: r => lo ≤ a ∧ a ≤ b ∧ Advancing b r
+
+theorem advancing_mono {lo lo' : Nat} (h : lo ≤ lo') : ∀ l, Advancing lo' l → Advancing lo l := by
+  intro l
+  cases l with
+  | nil => intro _; trivial
+  | cons x r => obtain ⟨a, b⟩ := x; intro ⟨h1, h2, h3⟩; exact ⟨by omega, h2, h3⟩
+
+theorem spans_advancing (base : Nat) (ps : List Piece) : Advancing base (spans base ps) := by
+  induction ps generalizing base with
+  | nil => trivial
+  | cons p ps ih =>
+    refine ⟨by omega, by omega, ?_⟩
+    exact advancing_mono (by omega) _ (ih _)
+
+/-- the text at the `i`-th interval of the old line is the `i`-th matched text -/
+theorem spans_text (rest : Bytes) : ∀ (ps : List Piece) (pre : Bytes) (i : Nat) (p : Piece) (a b : Nat),
+    ps[i]? = some p → (spans pre.length ps)[i]? = some (a, b) →
+    ((pre ++ srcOf ps rest).drop a).take (b - a) = p.matched := by
+  intro ps
+  induction ps with
+  | nil => intro pre i p a b h; simp at h
+  | cons q ps ih =>
+    intro pre i p a b hp hs
+    cases i with
+    | zero =>
+      simp only [List.getElem?_cons_zero, Option.some.injEq] at hp
+      subst hp
+      simp only [spans, List.getElem?_cons_zero, Option.some.injEq, Prod.mk.injEq] at hs
+      obtain ⟨rfl, rfl⟩ := hs
+      simp only [srcOf, List.flatMap_cons, List.append_assoc]
+      rw [← List.append_assoc pre, show pre.length + q.skip.length = (pre ++ q.skip).length by simp,
+        List.drop_left]
+      simp
+    | succ i =>
+      simp only [List.getElem?_cons_succ] at hp
+      simp only [spans, List.getElem?_cons_succ] at hs
+      have := ih (pre ++ q.skip ++ q.matched ++ q.ch) i p a b hp (by simpa [Nat.add_assoc] using hs)
+      simpa [srcOf, List.append_assoc] using this
+
+/-- **anchored patterns match once**: if the matcher never matches when told "not at the beginning of the
+    line" (as for `^…` patterns), the scan yields at most one piece, cut at the beginning of the line -/
+theorem anchored_once (find : Matcher) (hbol : ∀ s, find s true = some none) (rep : Bytes) (g : Bool)
+    (ln : Bytes) (nb : Bool) (ps : List Piece) (rest : Bytes) (h : scan find rep g ln nb = some (ps, rest)) :
+    ps.length ≤ 1 := by
+  rcases scan_cases h with ⟨_, rfl, rfl⟩ | ⟨so, eo, offs, x, l, ps', _, _, _, _, rfl, hrest⟩
+  · simp
+  · rcases hrest with ⟨rfl, rfl⟩ | ⟨_, hs⟩
+    · simp
+    · rcases scan_cases hs with ⟨_, rfl, rfl⟩ | ⟨so, eo, offs, x, l, ps', hf, _⟩
+      · simp
+      · rw [hbol] at hf; cases hf
+
+/-- `rstr_find` with a literal `^`-anchored pattern never matches under `RE_NOTBOL` -/
+theorem rsFind_lbeg (re : RStr) (h1 : re.rs = none) (h2 : re.lbeg = true) (s : Bytes) : rsFind re s true = some none := by
+  unfold rsFind
+  have hr : rstrFind re s 16 RE_NOTBOL ND NG = some (-1, [], 0) := by
+    unfold rstrFind
+    simp only [h1, h2]
+    have : (true && (RE_NOTBOL &&& RE_NOTBOL != 0)) = true := by decide
+    rw [if_pos this]
+  simp only [if_true, hr]
+  rfl
+
+/-- `:s/a/b/g` on `aaa`: three pieces -/
+example : (rstrMake [97] 0).bind (fun r => r.bind (fun re => substLine re [98] true [97, 97, 97, 10])) =
+    some (some [98, 98, 98, 10]) := by decide
+/-- without `g` only the first -/
+example : (rstrMake [97] 0).bind (fun r => r.bind (fun re => substLine re [98] false [97, 97, 97, 10])) =
+    some (some [98, 97, 97, 10]) := by decide
+/-- `^a` with `g`: once -/
+example : (rstrMake [94, 97] 0).bind (fun r => r.bind (fun re => substLine re [98] true [97, 97, 97, 10])) =
+    some (some [98, 97, 97, 10]) := by decide
+
+/-! ## 5. the frame of `ec_substitute` -/
+
+/-- the prologue of `ec_substitute`: pattern and replacement are read from the argument and remembered;
+    returns the editor and the `g` flag -/
+def substPrep (ed : Ed) (arg : Bytes) : Ed × Bool :=
+  let (pat, s) := reRead arg
+  let ed := match pat with | some p => if !p.isEmpty then ed.kwdSet (some p) 1 else ed | none => ed
+  let (rep, s) := if pat.isSome && !s.isEmpty then
+      let delim := arg.headD 0
+      let (r, s') := reRead ([delim] ++ s)
+      (r, s')
+    else (none, s)
+  let ed := if pat.isSome || rep.isSome then { ed with xrep := (rep.getD []).take (Gen.EXLEN - 1) } else ed
+  (ed, s.contains 103)
+
+/-- one round of the loop of `ec_substitute` on line `i` -/
+def substStep (re : RStr) (g : Bool) (i : Int) (ed : Ed) : Option Ed :=
+  match ed.line i with
+  | none => none
+  | some ln =>
+    match substLine re ed.xrep g ln with
+    | none => none
+    | some none => some ed
+    | some (some nl) => ed.edit (some nl) i (i + 1)
+
+/-- the loop of `ec_substitute` over `n` lines from `b` -/
+def substLoop (re : RStr) (g : Bool) (b : Int) (n : Nat) (ed : Ed) : Option Ed :=
+  (List.range n).foldl (fun (acc : Option Ed) (k : Nat) =>
+    match acc with
+    | none => none
+    | some ed => substStep re g (b + (k : Int)) ed) (some ed)
+
+/-- the `ec_substitute` branch of `runCmd`, in terms of the pieces above -/
+theorem runCmd_subst_eq (f : Nat) (ed : Ed) (loc cmd arg : Bytes) (txt : Option Bytes) :
+    runCmd (f + 1) ed "ec_substitute" loc cmd arg txt =
+      match exRegion ed loc with
+      | none => none
+      | some ((rc, b, e), ed) =>
+        if rc != 0 then some (1, ed) else
+        if (substPrep ed arg).1.xkwddir == 0 then some (1, (substPrep ed arg).1) else
+        match (substPrep ed arg).1.mkRe (substPrep ed arg).1.xkwd with
+        | none => none
+        | some none => some (1, (substPrep ed arg).1)
+        | some (some re) =>
+          match substLoop re (substPrep ed arg).2 b (e - b).toNat (substPrep ed arg).1 with
+          | none => none
+          | some ed => some (0, ed) := by
+  rw [runCmd]
+  simp (config := {decide := true}) only [if_false, if_true]
+  rfl
+
+theorem setLb_xrep (ed : Ed) (lb : Lb) : (ed.setLb lb).xrep = ed.xrep := by
+  unfold Ed.setLb; split <;> rfl
+
+theorem substPrep_bufs (ed : Ed) (arg : Bytes) : (substPrep ed arg).1.bufs = ed.bufs := by
+  unfold substPrep
+  simp only []
+  repeat' split
+  all_goals rfl
+
+theorem splice_get_lt (l m : List Bytes) (p q j : Nat) (hp : p ≤ l.length) (hj : j < p) :
+    (l.take p ++ m ++ l.drop q)[j]? = l[j]? := by
+  rw [List.append_assoc, List.getElem?_append_left (by simp; omega), List.getElem?_take_of_lt hj]
+
+theorem splice_get_gt (l m : List Bytes) (p j : Nat) (hm : m.length = 1) (hp : p < l.length) (hj : p < j) :
+    (l.take p ++ m ++ l.drop (p + 1))[j]? = l[j]? := by
+  rw [List.getElem?_append_right (by simp; omega)]
+  simp only [List.length_append, List.length_take, hm, List.getElem?_drop]
+  congr 1
+  omega
+
+/-- what rewriting line `i` does to the buffer -/
+theorem edit_one_line {ed ed' : Ed} {i : Int} {ln nl : Bytes} (hl : ed.line i = some ln)
+    (h : ed.edit (some nl) i (i + 1) = some ed') :
+    0 ≤ i ∧ ed'.xrep = ed.xrep ∧ ∃ lb lb', ed.lb = some lb ∧ ed'.lb = some lb' ∧ i.toNat < lb.lines.length ∧
+      lb'.lines = lb.lines.take i.toNat ++ splitLines nl ++ lb.lines.drop (i.toNat + 1) := by
+  obtain ⟨h0, _, lb, lb', hlb, hed, rfl, hlb'⟩ := Ed_edit_some h
+  unfold Ed.line at hl
+  rw [if_neg (by omega), hlb] at hl
+  simp only [Option.bind_some] at hl
+  have hlt : i.toNat < lb.lines.length := by
+    apply Classical.byContradiction
+    intro hge
+    rw [List.getElem?_eq_none (by omega)] at hl
+    cases hl
+  refine ⟨h0, setLb_xrep _ _, lb, lb', hlb, hlb', hlt, ?_⟩
+  have := edit_lines hed (by omega)
+  rw [this]
+  have e1 : min i.toNat lb.lines.length = i.toNat := by omega
+  have e2 : min (i + 1).toNat lb.lines.length = i.toNat + 1 := by omega
+  rw [e1, e2]
+  rfl
+
+theorem line_eq_of_lb {ed ed' : Ed} {lb lb' : Lb} (h1 : ed.lb = some lb) (h2 : ed'.lb = some lb') (j : Int)
+    (h : lb'.lines[j.toNat]? = lb.lines[j.toNat]?) : ed'.line j = ed.line j := by
+  unfold Ed.line
+  rw [h1, h2]
+  simp only [Option.bind_some, h]
+
+/-- one round leaves the lines before `i` alone, and also those after `i` and the line count when the new
+    text is a single line -/
+theorem substStep_frame {re : RStr} {g : Bool} {i : Int} {ed ed' : Ed} (h : substStep re g i ed = some ed') :
+    ed'.xrep = ed.xrep ∧ (∀ j, j < i → ed'.line j = ed.line j) ∧
+    ((∀ ln nl, ed.line i = some ln → substLine re ed.xrep g ln = some (some nl) → (splitLines nl).length = 1) →
+      ed'.len = ed.len ∧ ∀ j, i < j → ed'.line j = ed.line j) := by
+  unfold substStep at h
+  split at h
+  · cases h
+  · rename_i ln hl
+    split at h
+    · cases h
+    · cases h; exact ⟨rfl, fun _ _ => rfl, fun _ => ⟨rfl, fun _ _ => rfl⟩⟩
+    · rename_i nl hs
+      obtain ⟨h0, hx, lb, lb', hlb, hlb', hlt, hlines⟩ := edit_one_line hl h
+      refine ⟨hx, ?_, ?_⟩
+      · intro j hj
+        by_cases hj0 : j < 0
+        · unfold Ed.line; simp [hj0]
+        · apply line_eq_of_lb hlb hlb'
+          rw [hlines]
+          exact splice_get_lt _ _ _ _ _ (by omega) (by omega)
+      · intro hone
+        have h1 := hone ln nl hl hs
+        constructor
+        · unfold Ed.len
+          rw [hlb, hlb']
+          simp only [hlines, List.length_append, List.length_take, List.length_drop, h1]
+          omega
+        · intro j hj
+          apply line_eq_of_lb hlb hlb'
+          rw [hlines]
+          exact splice_get_gt _ _ _ _ h1 hlt (by omega)
+
+theorem substLoop_succ (re : RStr) (g : Bool) (b : Int) (n : Nat) (ed : Ed) :
+    substLoop re g b (n + 1) ed = (substLoop re g b n ed).bind (substStep re g (b + (n : Int))) := by
+  unfold substLoop
+  rw [List.range_succ, List.foldl_append]
+  simp only [List.foldl_cons, List.foldl_nil]
+  cases List.foldl _ (some ed) (List.range n) <;> rfl
+
+/-- the loop never touches the lines before `b` -/
+theorem substLoop_before (re : RStr) (g : Bool) (b : Int) : ∀ (n : Nat) (ed ed' : Ed),
+    substLoop re g b n ed = some ed' → ed'.xrep = ed.xrep ∧ ∀ j, j < b → ed'.line j = ed.line j := by
+  intro n
+  induction n with
+  | zero => intro ed ed' h; cases h; exact ⟨rfl, fun _ _ => rfl⟩
+  | succ n ih =>
+    intro ed ed' h
+    rw [substLoop_succ] at h
+    cases hm : substLoop re g b n ed with
+    | none => rw [hm] at h; cases h
+    | some em =>
+      rw [hm] at h
+      simp only [Option.bind_some] at h
+      obtain ⟨a1, a2⟩ := ih _ _ hm
+      obtain ⟨b1, b2, _⟩ := substStep_frame h
+      exact ⟨by rw [b1, a1], fun j hj => by rw [b2 j (by omega), a2 j hj]⟩
+
+/-- when every rewritten line stays a single line, the loop keeps the line count and the lines outside
+    `[b, b + n)` -/
+theorem substLoop_outside (re : RStr) (g : Bool) (b : Int) : ∀ (n : Nat) (ed ed' : Ed),
+    substLoop re g b n ed = some ed' →
+    (∀ i ln nl, b ≤ i → i < b + n → ed.line i = some ln → substLine re ed.xrep g ln = some (some nl) →
+      (splitLines nl).length = 1) →
+    ed'.len = ed.len ∧ ∀ j, (j < b ∨ b + n ≤ j) → ed'.line j = ed.line j := by
+  intro n
+  induction n with
+  | zero => intro ed ed' h _; cases h; exact ⟨rfl, fun _ _ => rfl⟩
+  | succ n ih =>
+    intro ed ed' h hone
+    rw [substLoop_succ] at h
+    cases hm : substLoop re g b n ed with
+    | none => rw [hm] at h; cases h
+    | some em =>
+      rw [hm] at h
+      simp only [Option.bind_some] at h
+      obtain ⟨a1, a2⟩ := ih _ _ hm (fun i ln nl h1 h2 => hone i ln nl h1 (by omega))
+      obtain ⟨x1, _⟩ := substLoop_before re g b n ed em hm
+      obtain ⟨_, b2, b3⟩ := substStep_frame h
+      have hcur : em.line (b + (n : Int)) = ed.line (b + (n : Int)) := a2 _ (Or.inr (by omega))
+      obtain ⟨c1, c2⟩ := b3 (fun ln nl hl hs => hone (b + n) ln nl (by omega) (by omega) (by rw [← hcur]; exact hl)
+        (by rw [← x1]; exact hs))
+      refine ⟨by rw [c1, a1], ?_⟩
+      intro j hj
+      rcases hj with hj | hj
+      · rw [b2 j (by omega), a2 j (Or.inl hj)]
+      · rw [c2 j (by omega), a2 j (Or.inr (by omega))]
+
+/-- **outside_range_unchanged**: a successful `:s` over `[b, e)` leaves every line before `b` alone; and
+    when every rewritten line is still a single line (the replacement brought no newline, and did not
+    remove the line's own), the number of lines and every line from `e` on are unchanged as well -/
+theorem outside_range_unchanged (f : Nat) (ed : Ed) (loc cmd arg : Bytes) (txt : Option Bytes) (ed' : Ed)
+    (h : runCmd (f + 1) ed "ec_substitute" loc cmd arg txt = some (0, ed')) :
+    ∃ b e ed1 re, exRegion ed loc = some ((0, b, e), ed1) ∧
+      (substPrep ed1 arg).1.mkRe (substPrep ed1 arg).1.xkwd = some (some re) ∧
+      (∀ j, j < b → ed'.line j = ed.line j) ∧
+      ((∀ i ln nl, b ≤ i → i < e → ed.line i = some ln →
+          substLine re (substPrep ed1 arg).1.xrep (substPrep ed1 arg).2 ln = some (some nl) →
+          (splitLines nl).length = 1) →
+        ed'.len = ed.len ∧ ∀ j, e ≤ j → ed'.line j = ed.line j) := by
+  rw [runCmd_subst_eq] at h
+  split at h
+  · cases h
+  · rename_i rc b e ed1 hr
+    split at h
+    · cases h
+    · rename_i hrc
+      have hrc0 : rc = 0 := by simpa using hrc
+      subst hrc0
+      split at h
+      · cases h
+      · split at h
+        · cases h
+        · cases h
+        · rename_i re hre
+          split at h
+          · cases h
+          · rename_i ed2 hloop
+            cases h
+            have hb1 : ∀ j, (substPrep ed1 arg).1.line j = ed.line j := fun j => by
+              rw [line_of_bufs (substPrep_bufs ed1 arg), line_of_bufs (exRegion_bufs hr)]
+            have hl1 : (substPrep ed1 arg).1.len = ed.len := by
+              rw [len_of_bufs (substPrep_bufs ed1 arg), len_of_bufs (exRegion_bufs hr)]
+            refine ⟨b, e, ed1, re, hr, hre, ?_, ?_⟩
+            · intro j hj
+              rw [(substLoop_before re _ b _ _ _ hloop).2 j hj, hb1]
+            · intro hone
+              obtain ⟨c1, c2⟩ := substLoop_outside re _ b _ _ _ hloop
+                (fun i ln nl h1 h2 hl hs => hone i ln nl h1 (by omega) (by rw [← hb1]; exact hl) hs)
+              refine ⟨by rw [c1, hl1], ?_⟩
+              intro j hj
+              rw [c2 j (by omega), hb1]
+
 end Neatvi.Props.C14
